@@ -718,6 +718,8 @@ class Interp:
         if a == "parent":
             if n.parent is not None:
                 return n.parent
+            if not n.open:
+                return Const(None)
             p = NodeV(None, name=f"{n.name}.parent")
             n.parent = p
             return p
@@ -879,8 +881,15 @@ class Interp:
             return n
         if d.startswith(PKG + "."):
             _, mod, cls = d.split(".")
-            o = Obj(f"{cls}@{self.siteid(site)}", cls=(mod, cls))
             cdef = self.prog.modules[mod].classes[cls]
+            if any((self.prog.dotted(self.prog.modules[mod], b) or "").startswith("sqlglot.exp.") for b in cdef.bases):
+                # a package-defined sqlglot expression class (e.g. SHA256(exp.Func))
+                a = {k: v for k, v in kwargs.items() if k != "**"}
+                n = NodeV(cls, a, name=f"new:{cls}@{self.siteid(site)}", open=False)
+                n.fresh = True
+                self.effect("construct", cls, a, site)
+                return n
+            o = Obj(f"{cls}@{self.siteid(site)}", cls=(mod, cls))
             if any(isinstance(dd, ast.Name) and dd.id == "dataclass" for dd in cdef.decorator_list) or any(
                 isinstance(b, ast.Name) and b.id == "Exception" for b in cdef.bases
             ) and not self.find_method(mod, cls, "__init__"):
@@ -907,6 +916,8 @@ class Interp:
         b = d[len("builtins."):] if d.startswith("builtins.") else None
         a0 = args[0] if args else None
         if d in ("sqlglot.exp.Literal.string", "sqlglot.exp.Literal.number"):
+            if isinstance(a0, Const) and not isinstance(a0.v, str):
+                a0 = Const(str(a0.v))  # sqlglot stores literal text
             return self.construct(ClsRef("exp.Literal"), [], {"this": a0, "is_string": Const(d.endswith("string"))}, site)
         if d in ("typing.cast", "builtins.cast"):
             return args[1]
@@ -918,6 +929,8 @@ class Interp:
             p = self.to_strpart(a0)
             return Const(p) if isinstance(p, str) else p
         if b == "len":
+            if isinstance(a0, ArgsView) and not a0.node.open:
+                return Const(len([k for k, v in a0.node.args.items() if ":" not in k and not (isinstance(v, Const) and v.v is None)]))
             if isinstance(a0, (Tup, Lst)) and not getattr(a0, "open", False):
                 return Const(len(a0.items))
             if isinstance(a0, Const) and isinstance(a0.v, (str, tuple, list)):
